@@ -28,11 +28,12 @@ struct CCfg
     double threshold = 0.4;
     int budget = 60;
     bool counting = false;  // point system on the allocation-counting R^2 (C03's leak / double-free clause)
+    bool steer = false;     // the propagator offers steer(): the library then allocates its SteeredControlSampler (point system only)
     int kdir = 1;           // number of candidate controls of the library's SimpleDirectedControlSampler (1 = the default allocation)
     std::string json() const
     {
         return "\"planner\":" + vf::jesc(planner) + ",\"map\":" + vf::jesc(map) + ",\"system\":" + vf::jesc(system) + ",\"stepSize\":" + vf::jnum(stepSize) + ",\"minD\":" + std::to_string(minD) +
-               ",\"maxD\":" + std::to_string(maxD) + ",\"threshold\":" + vf::jnum(threshold) + ",\"budget\":" + std::to_string(budget) + (kdir != 1 ? ",\"kdir\":" + std::to_string(kdir) : std::string());
+               ",\"maxD\":" + std::to_string(maxD) + ",\"threshold\":" + vf::jnum(threshold) + ",\"budget\":" + std::to_string(budget) + (kdir != 1 ? ",\"kdir\":" + std::to_string(kdir) : std::string()) + (steer ? ",\"steer\":true" : "");
     }
     static CCfg fromJson(const vf::JV &v)
     {
@@ -47,6 +48,8 @@ struct CCfg
         c.budget = v["budget"].i();
         if (v.has("kdir"))
             c.kdir = v["kdir"].i();
+        if (v.has("steer"))
+            c.steer = v["steer"].b;
         return c;
     }
 };
@@ -190,6 +193,49 @@ struct CProblem
             // the documented k-control mode: the library's own directed sampler picks the best of k propagated candidates
             int k = c.kdir;
             si->setDirectedControlSamplerAllocator([k](const oc::SpaceInformation *s) { return std::make_shared<oc::SimpleDirectedControlSampler>(s, k); });
+        }
+        if (c.steer && !uni)
+        {
+            // same dynamics as the lambda above plus a steering function: straight at the target with the largest admissible speed,
+            // for a whole number of steps within the duration bounds (the target is overshot or not reached otherwise: both are fine)
+            struct SteerProp : oc::StatePropagator
+            {
+                double step;
+                int minD, maxD;
+                SteerProp(oc::SpaceInformation *si, double st, int mn, int mx) : oc::StatePropagator(si), step(st), minD(mn), maxD(mx)
+                {
+                }
+                void propagate(const ob::State *from, const oc::Control *c, double dt, ob::State *to) const override
+                {
+                    const double *u = c->as<oc::RealVectorControlSpace::ControlType>()->values;
+                    const double *f = from->as<ob::RealVectorStateSpace::StateType>()->values;
+                    double x = f[0] + u[0] * dt, y = f[1] + u[1] * dt;
+                    double *t = to->as<ob::RealVectorStateSpace::StateType>()->values;
+                    t[0] = x;
+                    t[1] = y;
+                }
+                bool canSteer() const override
+                {
+                    return true;
+                }
+                bool steer(const ob::State *from, const ob::State *to, oc::Control *result, double &duration) const override
+                {
+                    const double *f = from->as<ob::RealVectorStateSpace::StateType>()->values;
+                    const double *t = to->as<ob::RealVectorStateSpace::StateType>()->values;
+                    double dx = t[0] - f[0], dy = t[1] - f[1];
+                    double m = std::max(std::fabs(dx), std::fabs(dy));
+                    if (m == 0)
+                        return false;
+                    int steps = (int)std::ceil(m / step);
+                    steps = std::max(minD, std::min(maxD, steps));
+                    duration = steps * step;
+                    double *u = result->as<oc::RealVectorControlSpace::ControlType>()->values;
+                    u[0] = std::max(-1.0, std::min(1.0, dx / duration));
+                    u[1] = std::max(-1.0, std::min(1.0, dy / duration));
+                    return true;
+                }
+            };
+            si->setStatePropagator(std::make_shared<SteerProp>(si.get(), c.stepSize, c.minD, c.maxD));
         }
         si->setPropagationStepSize(c.stepSize);
         si->setMinMaxControlDuration(c.minD, c.maxD);
@@ -467,6 +513,8 @@ static std::vector<CCfg> configs(const std::string &planner, bool thorough)
         {
             add("wallgap4", "point", 0.25, 1, 3, 60);
             v.back().kdir = 3;
+            add("wallgap4", "point", 0.25, 1, 3, 60);
+            v.back().steer = true;
         }
         if (thorough)
             add("maze6", "point", 0.25, 2, 5, 80);
@@ -488,6 +536,13 @@ static std::vector<CCfg> configs(const std::string &planner, bool thorough)
         v.back().kdir = 2;
         add("wallgap4", "unicycle", 0.25, 1, 3, 80);
         v.back().kdir = 3;
+        // steering propagator: the library's SteeredControlSampler drives straight at the sampled state, into the walls
+        add("wallgap4", "point", 0.25, 1, 3, 80);
+        v.back().steer = true;
+        add("maze6", "point", 0.25, 2, 5, 80);
+        v.back().steer = true;
+        add("diag4", "point", 1.0, 1, 2, 60);
+        v.back().steer = true;
     }
     if (thorough)
     {
